@@ -1,5 +1,6 @@
 import ShredModel.Lemmas.Scenario
 import ShredModel.Lemmas.NestedTop
+import ShredModel.Lemmas.Window
 /-!
 # C02 — dependencies
 
@@ -42,6 +43,35 @@ theorem C02_deps_order_tagged (sc : Scenario) (τ : Nat → SysTag) (A B : Nat) 
   exact tOrdered_of_ordered hz τ (hz.deps B A hB hA)
 end Shred
 
+
+namespace Shred
+namespace Scenario
+variable (sc : Scenario)
+
+/-- **C02 (transitively along dependency chains).** If `B` depends on `A` and `C` depends on `B`,
+then `A` has finished before `C` begins to fetch — although `C` did not name `A`. -/
+theorem C02_transitive (l : List (Ev SysTag)) (hl : Traces sc.plan l)
+    (A B C : SysTag) (hB : B < sc.final.n) (hC : C < sc.final.n) (hAB : A ∈ sc.Dep B) (hBC : B ∈ sc.Dep C)
+    (l1 l2 : List (Ev SysTag)) (hsplit : l = l1 ++ Ev.F C :: l2) : Ev.D A ∈ l1 := by
+  obtain ⟨z, hz⟩ := sc.good
+  have hnd := nodup_dispatchTask hz sc.tl sc.tl_nodup sc.tl_fresh
+  have hDB : Ev.D B ∈ l1 := sc.C02_dependencies l hl B C hC hBC l1 l2 hsplit
+  obtain ⟨m1, m2, hm⟩ := List.append_of_mem hDB
+  have hBsys : B ∈ sc.plan.sys := by
+    have := traces_ev_sys hl (Ev.D B) (by rw [hsplit, hm]; simp)
+    simpa [Ev.sys] using this
+  have hFB : Ev.F B ∈ m1 :=
+    traces_F_before_D hl hnd B hBsys m1 (m2 ++ Ev.F C :: l2) (by rw [hsplit, hm]; simp)
+  obtain ⟨k1, k2, hk⟩ := List.append_of_mem hFB
+  have hDA : Ev.D A ∈ k1 :=
+    sc.C02_dependencies l hl A B hB hAB k1 (k2 ++ Ev.D B :: m2 ++ Ev.F C :: l2) (by rw [hsplit, hm, hk]; simp)
+  rw [hm, hk]
+  simp [hDA]
+
+end Scenario
+end Shred
+
 #print axioms Shred.Scenario.C02_dependencies
 #print axioms Shred.C02_order_nested
 #print axioms Shred.C02_deps_order_tagged
+#print axioms Shred.Scenario.C02_transitive
